@@ -121,11 +121,11 @@ theorem commitChange_enabled {s : Sys} {i : Nat} {t : Tx} {v : View} {verdict : 
     | (apply Enabled.commitInvalid <;> simp_all [Tx.core, Cfg.cur]; done)
     | (apply Enabled.commitFailedRecover <;> simp_all [Tx.core, Cfg.cur]; done)
 
-theorem afterSend_acts (s : Sys) (c : Cfg) (values : Values) (ans : DevAns) (i : Nat)
+theorem afterSend_acts (s : Sys) (c : Cfg) (values : Values) (cls : AnsClass) (i : Nat)
     (okActs : List Act) (failActs : Fail → List Act) :
-    (afterSend s c values ans i okActs failActs).acts = [] ∨
-    (afterSend s c values ans i okActs failActs).acts = okActs ∨
-    ∃ f, (afterSend s c values ans i okActs failActs).acts = failActs f := by
+    (afterSend s c values cls i okActs failActs).acts = [] ∨
+    (afterSend s c values cls i okActs failActs).acts = okActs ∨
+    ∃ f, (afterSend s c values cls i okActs failActs).acts = failActs f := by
   unfold afterSend
   split
   · left; rfl
@@ -159,7 +159,7 @@ theorem applyChange_enabled {s : Sys} {i : Nat} {t : Tx} {v : View} {ans : DevAn
   -- the IN_PROGRESS branch after applyValues
   all_goals
     rename_i hcc _ hca hrec
-    rcases afterSend_acts s s.cfg (addDeleteChildren i t.values cv) ans i
+    rcases afterSend_acts s s.cfg (addDeleteChildren i t.values cv) (classify ans) i
         [.aApply i t.cord (addDeleteChildren i t.values cv), .tApplyDone i]
         (fun f => [.tApplyFailed i f, .aFailed i t.cord]) with h0 | h0 | ⟨f, h0⟩
     · left; exact h0
@@ -216,7 +216,7 @@ theorem applyRollback_enabled {s : Sys} {i : Nat} {t : Tx} {v : View} {ans : Dev
     | skip
   -- the IN_PROGRESS branch after applyValues
   all_goals
-    rcases afterSend_acts s s.cfg (addDeleteChildren i t.rvals cv) ans i
+    rcases afterSend_acts s s.cfg (addDeleteChildren i t.rvals cv) (classifyRb ans) i
         [.aRbApply i t.rord t.ridx (addDeleteChildren i t.rvals cv), .tRbApplyDone i]
         (fun f => [.aRbFailed i t.rord, .tRbApplyFailed i f]) with h0 | h0 | ⟨f, h0⟩
     · left; exact h0
